@@ -67,6 +67,28 @@ func jsonQuote(s string) string {
 	return sb.String()
 }
 
+// c15EncodeB renders {"<k>":{"a":"<v>"},"<k>2":null,"c":{"a":"<k>"}} (values that reflected map targets accept: objects and null).
+func c15EncodeB(cd *Codec, k, v string) []byte {
+	switch cd {
+	case codecJSON:
+		return []byte(fmt.Sprintf(`{%s:{"a":%s},%s:null,"c":{"a":%s}}`, jsonQuote(k), jsonQuote(v), jsonQuote(k+"2"), jsonQuote(k)))
+	case codecCBOR:
+		txt := func(s string) []byte {
+			return append(gen.CBORHead(3, uint64(len(s)), gen.CBORWidths(uint64(len(s)))[0]), s...)
+		}
+		return cat2([]byte{0xa3}, txt(k), []byte{0xa1}, txt("a"), txt(v), txt(k+"2"), []byte{0xf6}, txt("c"), []byte{0xa1}, txt("a"), txt(k))
+	default:
+		str := func(s string, marker bool) []byte {
+			var b []byte
+			if marker {
+				b = append(b, 'S')
+			}
+			return append(append(b, gen.UBJLen(gen.UBJLenMarkers(len(s))[0], len(s))...), s...)
+		}
+		return cat2([]byte{'{'}, str(k, false), []byte{'{'}, str("a", false), str(v, true), []byte{'}'}, str(k+"2", false), []byte{'Z'}, str("c", false), []byte{'{'}, str("a", false), str(k, true), []byte{'}', '}'})
+	}
+}
+
 // c15Encode renders {"<k>":"<v>","b":["<v>","<k>"]} in the given format.
 func c15Encode(cd *Codec, k, v string) []byte {
 	switch cd {
@@ -97,6 +119,26 @@ type c15Struct struct {
 	A string            `struct:"a"`
 	B []string          `struct:"b"`
 	M map[string]string `struct:",inline"`
+}
+
+type c15Elem struct {
+	A string `struct:"a"`
+}
+
+// targets of the second document shape: maps handled by the reflection-based map unfolder, and a one-entry key cache
+func c15TargetB(kind int) (interface{}, int) {
+	switch kind {
+	case 0:
+		return &map[string]c15Elem{}, 0
+	case 1:
+		return &map[string]*c15Elem{}, 0
+	case 2:
+		return &map[string]map[string]string{}, 0
+	case 3:
+		return &map[string]interface{}{}, 1
+	default:
+		return &map[string]*c15Elem{}, 2
+	}
 }
 
 func c15Target(kind int) (interface{}, bool) {
@@ -151,6 +193,29 @@ func c15Families(tier string) []engine.Family {
 			c15Unfold(x, cd, doc, next, entry, tk, full, fmt.Sprintf("len%d", len(s)))
 		}})
 	}
+	for _, cd := range codecs {
+		cd := cd
+		// second document shape: member values are objects and null, targets are maps with struct / pointer / map elements
+		// (reflection-based map unfolder) and maps behind a key cache of 1 and 2 entries (three distinct keys per document)
+		fams = append(fams, engine.Family{Name: "unfold-maps-" + cd.Name, Arity: []int{len(strs), 4, 5}, Dev: dev, Body: func(x *engine.Exec) {
+			s := strs[x.Choose(len(strs))]
+			entry := x.Choose(4)
+			tk := x.Choose(5)
+			keyIsLong := x.Bool()
+			k, v := "k", s
+			if keyIsLong {
+				k, v = s, "v"
+			}
+			doc := c15EncodeB(cd, k, v)
+			var next []byte
+			if x.Bool() {
+				next = c15EncodeB(cd, strings.Map(func(r rune) rune { return 'Z' }, k), strings.Map(func(r rune) rune { return 'Y' }, v))
+			} else {
+				next = c15EncodeB(cd, "n", "m")
+			}
+			c15UnfoldT(x, cd, doc, next, entry, 100+tk, full, fmt.Sprintf("maps:len%d", len(s)), func() (interface{}, int) { return c15TargetB(tk) })
+		}})
+	}
 	fams = append(fams, engine.Family{Name: "fold-gc", Dev: 1, Body: func(x *engine.Exec) {
 		vals := append(append([]interface{}{}, c16FoldValues...), c17FoldValues...)
 		vi := x.Choose(len(vals))
@@ -171,10 +236,21 @@ func c15Housekeeping() {
 }
 
 func c15Unfold(x *engine.Exec, cd *Codec, doc, next []byte, entry, tk, full int, class string) {
+	c15UnfoldT(x, cd, doc, next, entry, tk, full, class, func() (interface{}, int) {
+		t, c := c15Target(tk)
+		if c {
+			return t, 2
+		}
+		return t, 0
+	})
+}
+
+func c15UnfoldT(x *engine.Exec, cd *Codec, doc, next []byte, entry, tk, full int, class string, mkTarget func() (interface{}, int)) {
 	c15Housekeeping()
 	entryName := [...]string{"Parser.Write", "ParseReader", "ReaderDecoder", "BytesDecoder"}[entry]
 	// clean reference run
-	cleanT, _ := c15Target(tk)
+	cleanT, _ := mkTarget()
+	cleanT2, _ := mkTarget()
 	events := model.NewRecorder()
 	clean := guard(int64(400000+1000*len(doc)), func() error {
 		cu, err := gotype.NewUnfolder(cleanT)
@@ -182,6 +258,13 @@ func c15Unfold(x *engine.Exec, cd *Codec, doc, next []byte, entry, tk, full int,
 			return err
 		}
 		if err := cd.Parse(exact(doc), cu); err != nil {
+			return err
+		}
+		cu2, err := gotype.NewUnfolder(cleanT2)
+		if err != nil {
+			return err
+		}
+		if err := cd.Parse(exact(next), cu2); err != nil {
 			return err
 		}
 		return cd.Parse(exact(doc), events)
@@ -193,6 +276,7 @@ func c15Unfold(x *engine.Exec, cd *Codec, doc, next []byte, entry, tk, full int,
 		return
 	}
 	want := model.Dump(cleanT)
+	want2 := model.Dump(cleanT2)
 	E := len(events.Evs)
 
 	var chunks [][2]int
@@ -207,14 +291,15 @@ func c15Unfold(x *engine.Exec, cd *Codec, doc, next []byte, entry, tk, full int,
 			stepGC = int64(k) * 97
 		}
 	}
-	t1, cache := c15Target(tk)
-	t2, _ := c15Target(tk)
+	t1, cacheCap := mkTarget()
+	t2, _ := mkTarget()
+	cache := cacheCap > 0
 	x.Case(fmt.Sprintf("%s|%x|%d|%d|%d|%v|%d|%d", cd.Name, doc, len(next), entry, tk, chunks, gcAt, stepGC), true)
 	desc := func() interface{} {
 		return map[string]interface{}{"codec": cd.Name, "doc": trunc(fmt.Sprintf("%q", doc), 120), "entry": entryName, "target": fmt.Sprintf("%T", t1), "key_cache": cache, "chunks": chunks, "gc_before_event": gcAt, "gc_at_step": stepGC}
 	}
 	x.Sample(desc)
-	var snap1, snap2, snap3 string
+	var snap1, snap2, snap3, snapNext string
 	sawInternal := false
 	budget := int64(400000 + 1000*(len(doc)+len(next)))
 	res := guard(budget, func() error {
@@ -223,7 +308,7 @@ func c15Unfold(x *engine.Exec, cd *Codec, doc, next []byte, entry, tk, full int,
 			return err
 		}
 		if cache {
-			u.EnableKeyCache(2)
+			u.EnableKeyCache(cacheCap)
 		}
 		tap := &model.Tap{ExtVisitor: structform.EnsureExtVisitor(u), Before: func(n int) {
 			if n == gcAt {
@@ -334,6 +419,7 @@ func c15Unfold(x *engine.Exec, cd *Codec, doc, next []byte, entry, tk, full int,
 		}
 		runtime.GC() // with clobberfree=1 anything freed although still referenced is overwritten now
 		snap3 = model.Dump(t1)
+		snapNext = model.Dump(t2)
 		return nil
 	})
 	if sawInternal {
@@ -343,6 +429,7 @@ func c15Unfold(x *engine.Exec, cd *Codec, doc, next []byte, entry, tk, full int,
 		m := desc().(map[string]interface{})
 		m["err"] = errStr(res.Err)
 		m["clean_run"], m["after_first_document"], m["after_followup"], m["after_gc"] = trunc(want, 200), trunc(snap1, 200), trunc(snap2, 200), trunc(snap3, 200)
+		m["followup_clean_run"], m["followup_after_gc"] = trunc(want2, 200), trunc(snapNext, 200)
 		return m
 	}
 	ent := cd.Name + "." + entryName + "->Unfolder"
@@ -362,6 +449,8 @@ func c15Unfold(x *engine.Exec, cd *Codec, doc, next []byte, entry, tk, full int,
 		x.Violation(ent, "alias", class, "stored value changed after the source buffers were overwritten and a follow-up document was processed", wit())
 	case snap3 != snap1:
 		x.Violation(ent, "use-after-free", class, "stored value changed after a garbage collection", wit())
+	case snapNext != want2:
+		x.Violation(ent, "alias", class+":follow-up", "the value built from the follow-up document differs from its clean run after the source buffers were overwritten", wit())
 	default:
 		x.Outcome(ent + fmt.Sprint(len(snap1)))
 	}
